@@ -9,3 +9,4 @@ pub mod oracle;
 pub mod parse;
 pub mod probe;
 pub mod run;
+pub mod selftest;
